@@ -28,8 +28,10 @@ def _load(prop):
     return importlib.import_module(f"harness.{prop}")
 
 
-def _profile_functions(scenario, params, core):
-    """edzed functions executed (symbolically) on the first path of a shard."""
+def _profile_functions(scenario, params, core, model):
+    """edzed functions executed on one path of a shard.  The path is re-run concretely (same
+    scenario, values of a sample model) under sys.setprofile: profiling the symbolic run itself
+    would trace every call inside the z3 bindings."""
     seen = {}
 
     def prof(frame, event, arg):
@@ -40,12 +42,9 @@ def _profile_functions(scenario, params, core):
                 key = (fn[len(REPO) + 1:], co.co_qualname)
                 if key not in seen:
                     seen[key] = co.co_firstlineno
-    stats = core.Stats()
-    env = core.SymEnv(stats, [])
-    core.CUR = env
     sys.setprofile(prof)
     try:
-        scenario(env, **params)
+        core.replay(scenario, params, model)
     except BaseException:
         pass
     finally:
@@ -74,20 +73,28 @@ def _run_shard(job):
         if want_twin:
             core.SymEnv.TWIN = True
             try:
-                tw = core.explore(scen, params, max_violations=1, deadline=deadline)
+                tw = core.explore(scen, params, max_violations=4, deadline=deadline)
             finally:
                 core.SymEnv.TWIN = False
             ok = False
-            if tw['violations']:
-                v = tw['violations'][0]
+            for v in tw['violations'][:1]:
                 try:
-                    failures, exc, cenv = core.replay(scen, params, v['model'])
+                    failures, exc, cenv = core.replay(scen, params, v['model'], timeout_s=15)
                     ok = v['label'][5:] in cenv.passed + [f[0] for f in failures]
                 except core.ReplayMismatch:
                     ok = False
+                if not ok:
+                    # exact (pinned) replay: same model, rational arithmetic
+                    try:
+                        failures, exc, cenv = core.replay_pinned(scen, params, v['model'])
+                        ok = v['label'][5:] in cenv.passed + [f[0] for f in failures]
+                        out['twin_mode'] = 'pinned-exact'
+                    except (core.ReplayMismatch, core.Inconclusive):
+                        ok = False
             out['twin'] = ok
-        if want_prof:
-            out['functions'] = _profile_functions(scen, params, core)
+        if want_prof and res['samples']:
+            m = res['samples'][0]
+            out['functions'] = _profile_functions(scen, params, core, {'vars': m['model'], 'decisions': m['choices']})
         return out
     except core.Inconclusive as err:
         return {'idx': idx, 'name': f'shard{idx}', 'inconclusive': f"{type(err).__name__}: {err}",
@@ -101,9 +108,21 @@ def _confirm(mod, shard, viol):
     """Concrete replay of a counterexample. Returns (confirmed, text)."""
     from symx import core
     scen = getattr(mod, shard['scenario'])
+    ok, text = _confirm_with(core.replay, mod, shard, viol, scen)
+    if ok or not getattr(mod, 'ALLOW_PINNED_REPLAY', False):
+        return ok, text
+    ok2, text2 = _confirm_with(core.replay_pinned, mod, shard, viol, scen)
+    if ok2:
+        return True, ("[plain float replay did not reproduce: " + text.splitlines()[-1] + "]\n"
+                      "[reproduced by the exact replay (same inputs, rational arithmetic on the virtual clock)]\n" + text2)
+    return False, text + "\n[exact replay] " + text2
+
+
+def _confirm_with(replay_fn, mod, shard, viol, scen):
+    from symx import core
     try:
-        failures, exc, env = core.replay(scen, shard.get('params', {}), viol['model'])
-    except core.ReplayMismatch as err:
+        failures, exc, env = replay_fn(scen, shard.get('params', {}), viol['model'])
+    except (core.ReplayMismatch, core.Inconclusive) as err:
         return False, f"replay mismatch: {err}"
     lines = [f"observed: {o!r}" for o in env.log[-30:]]
     if viol['kind'] == 'exception':
